@@ -17,30 +17,30 @@ theorem stochasticN_eq_effN (run cfg : Option Int) (N : Nat) (hN : 0 < N) :
   cases run with
   | none =>
     cases cfg with
-    | none => simp [LK.Py.por, LK.Py.truthy, LK.Py.lt, LK.Py.gt, hN0, hN1]
+    | none => simp [LK.Py.por, LK.Py.truthy, LK.Py.lt, LK.Py.gt, LK.Py.le, LK.Py.ge, hN0, hN1]
     | some c =>
       by_cases hc : c = 0
-      · simp [LK.Py.por, LK.Py.truthy, LK.Py.lt, LK.Py.gt, hN0, hN1, hc]
+      · simp [LK.Py.por, LK.Py.truthy, LK.Py.lt, LK.Py.gt, LK.Py.le, LK.Py.ge, hN0, hN1, hc]
       · by_cases h1 : c < 0
-        · simp [LK.Py.por, LK.Py.truthy, LK.Py.lt, LK.Py.gt, hN0, hN1, hc, h1]
+        · simp [LK.Py.por, LK.Py.truthy, LK.Py.lt, LK.Py.gt, LK.Py.le, LK.Py.ge, hN0, hN1, hc, h1]
         · by_cases h2 : (N : Int) < c
-          · simp [LK.Py.por, LK.Py.truthy, LK.Py.lt, LK.Py.gt, hN0, hN1, hc, h1, h2]
-          · simp [LK.Py.por, LK.Py.truthy, LK.Py.lt, LK.Py.gt, hN0, hN1, hc, h1, h2]; omega
+          · simp [LK.Py.por, LK.Py.truthy, LK.Py.lt, LK.Py.gt, LK.Py.le, LK.Py.ge, hN0, hN1, hc, h1, h2]
+          · simp [LK.Py.por, LK.Py.truthy, LK.Py.lt, LK.Py.gt, LK.Py.le, LK.Py.ge, hN0, hN1, hc, h1, h2]; omega
   | some r =>
     by_cases hr : r < 0
     · cases cfg with
-      | none => simp [LK.Py.por, LK.Py.truthy, LK.Py.lt, LK.Py.gt, hN0, hN1, hr]
+      | none => simp [LK.Py.por, LK.Py.truthy, LK.Py.lt, LK.Py.gt, LK.Py.le, LK.Py.ge, hN0, hN1, hr]
       | some c =>
         by_cases hc : c = 0
-        · simp [LK.Py.por, LK.Py.truthy, LK.Py.lt, LK.Py.gt, hN0, hN1, hc, hr]
+        · simp [LK.Py.por, LK.Py.truthy, LK.Py.lt, LK.Py.gt, LK.Py.le, LK.Py.ge, hN0, hN1, hc, hr]
         · by_cases h1 : c < 0
-          · simp [LK.Py.por, LK.Py.truthy, LK.Py.lt, LK.Py.gt, hN0, hN1, hc, h1, hr]
+          · simp [LK.Py.por, LK.Py.truthy, LK.Py.lt, LK.Py.gt, LK.Py.le, LK.Py.ge, hN0, hN1, hc, h1, hr]
           · by_cases h2 : (N : Int) < c
-            · simp [LK.Py.por, LK.Py.truthy, LK.Py.lt, LK.Py.gt, hN0, hN1, hc, h1, h2, hr]
-            · simp [LK.Py.por, LK.Py.truthy, LK.Py.lt, LK.Py.gt, hN0, hN1, hc, h1, h2, hr]; omega
+            · simp [LK.Py.por, LK.Py.truthy, LK.Py.lt, LK.Py.gt, LK.Py.le, LK.Py.ge, hN0, hN1, hc, h1, h2, hr]
+            · simp [LK.Py.por, LK.Py.truthy, LK.Py.lt, LK.Py.gt, LK.Py.le, LK.Py.ge, hN0, hN1, hc, h1, h2, hr]; omega
     · by_cases h2 : (N : Int) < r
-      · simp [LK.Py.por, LK.Py.truthy, LK.Py.lt, LK.Py.gt, hN0, hN1, hr, h2]
-      · simp [LK.Py.por, LK.Py.truthy, LK.Py.lt, LK.Py.gt, hN0, hN1, hr, h2]; omega
+      · simp [LK.Py.por, LK.Py.truthy, LK.Py.lt, LK.Py.gt, LK.Py.le, LK.Py.ge, hN0, hN1, hr, h2]
+      · simp [LK.Py.por, LK.Py.truthy, LK.Py.lt, LK.Py.gt, LK.Py.le, LK.Py.ge, hN0, hN1, hr, h2]; omega
 
 /-- likewise for `SoftmaxRanker`: the length it produces over `N > 0` rankable items is the model's `effN`: a run-time `n ≥ 0` wins (clamped to `N`),
     an absent or negative one falls back to the configured value, and absent / zero / negative / oversized values mean "all" -/
@@ -52,30 +52,30 @@ theorem softmaxN_eq_effN (run cfg : Option Int) (N : Nat) (hN : 0 < N) :
   cases run with
   | none =>
     cases cfg with
-    | none => simp [LK.Py.por, LK.Py.truthy, LK.Py.lt, LK.Py.gt, hN0, hN1]
+    | none => simp [LK.Py.por, LK.Py.truthy, LK.Py.lt, LK.Py.gt, LK.Py.le, LK.Py.ge, hN0, hN1]
     | some c =>
       by_cases hc : c = 0
-      · simp [LK.Py.por, LK.Py.truthy, LK.Py.lt, LK.Py.gt, hN0, hN1, hc]
+      · simp [LK.Py.por, LK.Py.truthy, LK.Py.lt, LK.Py.gt, LK.Py.le, LK.Py.ge, hN0, hN1, hc]
       · by_cases h1 : c < 0
-        · simp [LK.Py.por, LK.Py.truthy, LK.Py.lt, LK.Py.gt, hN0, hN1, hc, h1]
+        · simp [LK.Py.por, LK.Py.truthy, LK.Py.lt, LK.Py.gt, LK.Py.le, LK.Py.ge, hN0, hN1, hc, h1]
         · by_cases h2 : (N : Int) < c
-          · simp [LK.Py.por, LK.Py.truthy, LK.Py.lt, LK.Py.gt, hN0, hN1, hc, h1, h2]
-          · simp [LK.Py.por, LK.Py.truthy, LK.Py.lt, LK.Py.gt, hN0, hN1, hc, h1, h2]; omega
+          · simp [LK.Py.por, LK.Py.truthy, LK.Py.lt, LK.Py.gt, LK.Py.le, LK.Py.ge, hN0, hN1, hc, h1, h2]
+          · simp [LK.Py.por, LK.Py.truthy, LK.Py.lt, LK.Py.gt, LK.Py.le, LK.Py.ge, hN0, hN1, hc, h1, h2]; omega
   | some r =>
     by_cases hr : r < 0
     · cases cfg with
-      | none => simp [LK.Py.por, LK.Py.truthy, LK.Py.lt, LK.Py.gt, hN0, hN1, hr]
+      | none => simp [LK.Py.por, LK.Py.truthy, LK.Py.lt, LK.Py.gt, LK.Py.le, LK.Py.ge, hN0, hN1, hr]
       | some c =>
         by_cases hc : c = 0
-        · simp [LK.Py.por, LK.Py.truthy, LK.Py.lt, LK.Py.gt, hN0, hN1, hc, hr]
+        · simp [LK.Py.por, LK.Py.truthy, LK.Py.lt, LK.Py.gt, LK.Py.le, LK.Py.ge, hN0, hN1, hc, hr]
         · by_cases h1 : c < 0
-          · simp [LK.Py.por, LK.Py.truthy, LK.Py.lt, LK.Py.gt, hN0, hN1, hc, h1, hr]
+          · simp [LK.Py.por, LK.Py.truthy, LK.Py.lt, LK.Py.gt, LK.Py.le, LK.Py.ge, hN0, hN1, hc, h1, hr]
           · by_cases h2 : (N : Int) < c
-            · simp [LK.Py.por, LK.Py.truthy, LK.Py.lt, LK.Py.gt, hN0, hN1, hc, h1, h2, hr]
-            · simp [LK.Py.por, LK.Py.truthy, LK.Py.lt, LK.Py.gt, hN0, hN1, hc, h1, h2, hr]; omega
+            · simp [LK.Py.por, LK.Py.truthy, LK.Py.lt, LK.Py.gt, LK.Py.le, LK.Py.ge, hN0, hN1, hc, h1, h2, hr]
+            · simp [LK.Py.por, LK.Py.truthy, LK.Py.lt, LK.Py.gt, LK.Py.le, LK.Py.ge, hN0, hN1, hc, h1, h2, hr]; omega
     · by_cases h2 : (N : Int) < r
-      · simp [LK.Py.por, LK.Py.truthy, LK.Py.lt, LK.Py.gt, hN0, hN1, hr, h2]
-      · simp [LK.Py.por, LK.Py.truthy, LK.Py.lt, LK.Py.gt, hN0, hN1, hr, h2]; omega
+      · simp [LK.Py.por, LK.Py.truthy, LK.Py.lt, LK.Py.gt, LK.Py.le, LK.Py.ge, hN0, hN1, hr, h2]
+      · simp [LK.Py.por, LK.Py.truthy, LK.Py.lt, LK.Py.gt, LK.Py.le, LK.Py.ge, hN0, hN1, hr, h2]; omega
 
 
 /-- the number of items `RandomSelector` picks from `L` candidates is the model's `randomK`: a run-time `n` (0 included) wins, a negative
@@ -86,17 +86,17 @@ theorem randomN_eq_randomK (run cfg : Option Int) (L : Nat) :
   cases run with
   | none =>
     cases cfg with
-    | none => simp [LK.Py.por, LK.Py.truthy, LK.Py.lt, LK.Py.pmin]
+    | none => simp [LK.Py.por, LK.Py.truthy, LK.Py.lt, LK.Py.gt, LK.Py.le, LK.Py.ge, LK.Py.pmin]
     | some c =>
       by_cases hc : c = 0
-      · simp [LK.Py.por, LK.Py.truthy, LK.Py.lt, LK.Py.pmin, hc]
+      · simp [LK.Py.por, LK.Py.truthy, LK.Py.lt, LK.Py.gt, LK.Py.le, LK.Py.ge, LK.Py.pmin, hc]
       · by_cases h1 : c < 0
-        · simp [LK.Py.por, LK.Py.truthy, LK.Py.lt, LK.Py.pmin, hc, h1]
-        · simp [LK.Py.por, LK.Py.truthy, LK.Py.lt, LK.Py.pmin, hc, h1]; omega
+        · simp [LK.Py.por, LK.Py.truthy, LK.Py.lt, LK.Py.gt, LK.Py.le, LK.Py.ge, LK.Py.pmin, hc, h1]
+        · simp [LK.Py.por, LK.Py.truthy, LK.Py.lt, LK.Py.gt, LK.Py.le, LK.Py.ge, LK.Py.pmin, hc, h1]; omega
   | some r =>
     by_cases hr : r < 0
-    · simp [LK.Py.por, LK.Py.truthy, LK.Py.lt, LK.Py.pmin, hr]
-    · simp [LK.Py.por, LK.Py.truthy, LK.Py.lt, LK.Py.pmin, hr]; omega
+    · simp [LK.Py.por, LK.Py.truthy, LK.Py.lt, LK.Py.gt, LK.Py.le, LK.Py.ge, LK.Py.pmin, hr]
+    · simp [LK.Py.por, LK.Py.truthy, LK.Py.lt, LK.Py.gt, LK.Py.le, LK.Py.ge, LK.Py.pmin, hr]; omega
 
 /-- a length given at run time overrides the configured one (all three components) -/
 theorem runtime_overrides (k : Nat) (cfg : Option Int) (N : Nat) (hN : 0 < N) :
